@@ -1,3 +1,289 @@
-/- C06 — property theorems only (helper lemmas live in `Rooc/Proofs`). -/
+/-
+C06 — data-driven constructs expand exactly.  PROPERTY THEOREMS ONLY, about the modelled expansion
+core (`Rooc/Pre/Expand.lean`: the aggregation folds of `into_exp`, `range`, `enumerate`, `zip`,
+`flatten_variable_name`; diffed against the Rust on every run).  The program-level statement
+`transform p = transform (unroll p)` is checked on the implementation by the harness against an
+independent reference unroller (see `tools/props/C06.json`: planned as a theorem).
+-/
+import Rooc.Pre.Expand
+import Rooc.Sem
+import Rooc.Proofs.Field
+import Rooc.Proofs.Pre
+import Rooc.Proofs.Iter
+import Mathlib.Algebra.BigOperators.Group.List.Basic
 namespace Rooc.Props.C06
+set_option linter.unusedSectionVars false
+open Rooc Rooc.Pre Rooc.Sem Rooc.Proofs.Pre
+
+section folds
+variable {K : Type} [Field K] [LinearOrder K] [IsStrictOrderedRing K] [FloorRing K]
+
+private theorem evalList_cons (ρ : String → K) (x : Exp (Ext K)) (xs : List (Exp (Ext K))) (vs : List K)
+    (h : evalList ρ (x :: xs) = some vs) : ∃ v ws, eval ρ x = some v ∧ evalList ρ xs = some ws ∧ vs = v :: ws := by
+  simp only [evalList] at h
+  cases hx : eval ρ x with
+  | none => simp [hx] at h
+  | some v =>
+    cases hxs : evalList ρ xs with
+    | none => simp [hx, hxs] at h
+    | some ws => simp [hx, hxs] at h; exact ⟨v, ws, rfl, rfl, h.symm⟩
+
+/-- `sum_fold_eval`: the value of the folded `sum` tree is the sum of the values of its operands, in
+particular `0` for the empty sum -/
+theorem sum_fold_eval (ρ : String → K) (xs : List (Exp (Ext K))) (vs : List K) (h : evalList ρ xs = some vs) :
+    eval ρ (foldRight .add (.num (Arith.ofInt 0)) xs) = some vs.sum := by
+  induction xs generalizing vs with
+  | nil => simp [evalList] at h; subst h; simp [foldRight, eval, Arith.ofInt]
+  | cons x rest ih =>
+    obtain ⟨v, ws, hx, hrest, rfl⟩ := evalList_cons ρ x rest vs h
+    cases rest with
+    | nil => simp [evalList] at hrest; subst hrest; simp [foldRight, hx]
+    | cons y rest' =>
+      have := ih ws hrest
+      simp [foldRight, eval, hx, this, binVal]
+
+/-- the same for `prod` (empty product = 1) -/
+theorem prod_fold_eval (ρ : String → K) (xs : List (Exp (Ext K))) (vs : List K) (h : evalList ρ xs = some vs) :
+    eval ρ (foldRight .mul (.num (Arith.ofInt 1)) xs) = some vs.prod := by
+  induction xs generalizing vs with
+  | nil => simp [evalList] at h; subst h; simp [foldRight, eval, Arith.ofInt]
+  | cons x rest ih =>
+    obtain ⟨v, ws, hx, hrest, rfl⟩ := evalList_cons ρ x rest vs h
+    cases rest with
+    | nil => simp [evalList] at hrest; subst hrest; simp [foldRight, hx]
+    | cons y rest' =>
+      have := ih ws hrest
+      simp [foldRight, eval, hx, this, binVal]
+
+/-- `avg`: sum ÷ number of operands; undefined (`0 ÷ 0`) for the empty average -/
+theorem avg_fold_eval (ρ : String → K) (xs : List (Exp (Ext K))) (vs : List K) (h : evalList ρ xs = some vs) (hne : xs ≠ []) :
+    (aggregate .avg xs).bind (fun e => eval ρ e) = some (vs.sum / (xs.length : K)) := by
+  have hs := sum_fold_eval ρ xs vs h
+  have hlen : (xs.length : K) ≠ 0 := by
+    have : 0 < xs.length := List.length_pos_of_ne_nil hne
+    exact_mod_cast (Nat.pos_iff_ne_zero.mp this)
+  simp only [aggregate, Option.bind_some, eval, hs, Option.bind_eq_bind]
+  simp [Arith.ofInt, binVal, kzero, eval, hlen]
+theorem avg_empty_undefined (ρ : String → K) : (aggregate .avg ([] : List (Exp (Ext K)))).bind (fun e => eval ρ e) = none := by
+  simp [aggregate, foldRight, eval, Arith.ofInt, binVal, kzero]
+
+private theorem truthy_ofBool (b : Bool) : truthy (ofBool b : K) = b := by
+  cases b <;> simp [truthy, ofBool, kone, kzero]
+
+private theorem xor_foldl (ρ : String → K) (rest : List (Exp (Ext K))) (ws : List K) (h : evalList ρ rest = some ws)
+    (acc : Exp (Ext K)) (r0 : K) (hacc : eval ρ acc = some r0) :
+    ∃ r, eval ρ (rest.foldl (fun a e => .xor a e) acc) = some r ∧ truthy r = (ws.map truthy).foldl (· != ·) (truthy r0) := by
+  induction rest generalizing ws acc r0 with
+  | nil => simp [evalList] at h; subst h; exact ⟨r0, hacc, rfl⟩
+  | cons x rest ih =>
+    obtain ⟨v, ws', hx, hrest, rfl⟩ := evalList_cons ρ x rest ws h
+    have hstep : eval ρ (.xor acc x) = some (ofBool (truthy r0 != truthy v)) := by simp [eval, hacc, hx, binVal]
+    obtain ⟨r, hr, ht⟩ := ih ws' hrest (.xor acc x) _ hstep
+    refine ⟨r, by simpa using hr, ?_⟩
+    simp [ht, truthy_ofBool]
+
+/-- `xor` folds from the left; its truth value is the parity of the operands' truth values (`0`,
+false, for the empty block) -/
+theorem xor_fold_eval (ρ : String → K) (xs : List (Exp (Ext K))) (vs : List K) (h : evalList ρ xs = some vs) :
+    ∃ r, eval ρ (foldXor xs) = some r ∧ truthy r = (vs.map truthy).foldl (· != ·) false := by
+  cases xs with
+  | nil => simp [evalList] at h; subst h; exact ⟨0, by simp [foldXor, eval, Arith.ofInt], by simp [truthy, kzero]⟩
+  | cons x rest =>
+    obtain ⟨v, ws, hx, hrest, rfl⟩ := evalList_cons ρ x rest vs h
+    obtain ⟨r, hr, ht⟩ := xor_foldl ρ rest ws hrest x v hx
+    refine ⟨r, by simpa [foldXor] using hr, ?_⟩
+    simp [ht]
+
+example (ρ : String → K) : evalList ρ [.var "a", .var "b", .var "c"] = some [ρ "a", ρ "b", ρ "c"] := by
+  simp [evalList, eval]
+
+end folds
+
+/-! ### ranges -/
+
+/-- `range_spec`: `lo..hi` contains exactly the integers `lo ≤ i < hi`, `lo..=hi` exactly `lo ≤ i ≤ hi`
+(so both are empty when `hi < lo`, and `lo..lo` is empty while `lo..=lo` is `[lo]`) -/
+theorem range_spec (lo hi : Int) (inclusive : Bool) (i : Int) :
+    i ∈ rangeVals lo hi inclusive ↔ lo ≤ i ∧ (if inclusive then i ≤ hi else i < hi) := by
+  cases inclusive <;> simp [rangeVals, mem_intsFrom] <;> omega
+
+/-- iteration order: the `k`-th element is `lo + k` -/
+theorem range_order (lo hi : Int) (inclusive : Bool) (k : Nat) (h : k < (rangeVals lo hi inclusive).length) :
+    (rangeVals lo hi inclusive)[k]? = some (lo + k) := by
+  unfold rangeVals at *
+  rw [intsFrom_length'] at h
+  exact intsFrom_get lo _ k h
+
+example : rangeVals 2 2 false = [] ∧ rangeVals 2 2 true = [2] ∧ rangeVals (-2) 1 false = [-2, -1, 0] ∧ rangeVals 3 1 true = [] := by decide
+
+/-! ### enumerate, zip -/
+
+/-- `enumerate_spec`: the `i`-th element of `enumerate xs` is `(xs[i], i)` -/
+theorem enumerate_spec {β : Type} (xs : List β) (i : Nat) : (enumerate xs)[i]? = xs[i]?.map (fun x => (x, i)) := by
+  simp [enumerate, enumerateFrom_get]
+theorem enumerate_length {β : Type} (xs : List β) : (enumerate xs).length = xs.length := by
+  unfold enumerate
+  generalize 0 = s
+  induction xs generalizing s with
+  | nil => rfl
+  | cons x xs ih => simp [enumerateFrom, ih]
+
+private theorem heads_isSome {β : Type} (ls : List (List β)) : (heads ls).isSome = ls.all (fun l => !l.isEmpty) := by
+  induction ls with
+  | nil => rfl
+  | cons l rest ih => cases l <;> simp_all [heads, Option.isSome_map]
+private theorem shortest_tail {β : Type} (ls : List (List β)) (hne : ls ≠ []) (hall : ls.all (fun l => !l.isEmpty) = true) :
+    shortest (ls.map List.tail) + 1 = shortest ls := by
+  induction ls with
+  | nil => exact absurd rfl hne
+  | cons l rest ih =>
+    cases rest with
+    | nil => cases l <;> simp_all [shortest]
+    | cons l2 rest' =>
+      have h2 := ih (by simp) (by simp_all)
+      cases l with
+      | nil => simp at hall
+      | cons a t =>
+        simp only [List.map_cons, shortest] at h2 ⊢
+        simp only [List.tail_cons, List.length_cons, Nat.min_def] at h2 ⊢
+        split <;> split <;> omega
+private theorem shortest_zero {β : Type} (ls : List (List β)) (hne : ls ≠ []) (hex : ls.all (fun l => !l.isEmpty) = false) : shortest ls = 0 := by
+  induction ls with
+  | nil => exact absurd rfl hne
+  | cons l rest ih =>
+    cases rest with
+    | nil => cases l <;> simp_all [shortest]
+    | cons l2 rest' =>
+      cases l with
+      | nil => simp [shortest]
+      | cons a t =>
+        have : shortest (l2 :: rest') = 0 := ih (by simp) (by simpa using hex)
+        simp only [shortest, this, Nat.min_def]; split <;> omega
+
+private theorem zipN_length {β : Type} (fuel : Nat) (ls : List (List β)) (hne : ls ≠ []) (hf : shortest ls ≤ fuel) :
+    (zipN fuel ls).length = shortest ls := by
+  induction fuel generalizing ls with
+  | zero => simp [zipN]; omega
+  | succ fuel ih =>
+    cases ls with
+    | nil => exact absurd rfl hne
+    | cons l rest =>
+      simp only [zipN]
+      cases hh : heads (l :: rest) with
+      | none =>
+        have : (l :: rest).all (fun l => !l.isEmpty) = false := by
+          have := heads_isSome (l :: rest); rw [hh] at this; simpa using this.symm
+        simp [shortest_zero (l :: rest) (by simp) this]
+      | some row =>
+        have hall : (l :: rest).all (fun l => !l.isEmpty) = true := by
+          have := heads_isSome (l :: rest); rw [hh] at this; simpa using this.symm
+        have hst := shortest_tail (l :: rest) (by simp) hall
+        have := ih ((l :: rest).map List.tail) (by simp) (by omega)
+        simp only [List.length_cons, this]; omega
+
+/-- `zip_len`: `zip` yields as many tuples as its shortest argument has elements -/
+theorem zip_len {β : Type} (ls : List (List β)) (hne : ls ≠ []) : (zip ls).length = shortest ls :=
+  zipN_length _ ls hne (Nat.le_refl _)
+
+example : zip [[1, 2, 3], [4, 5]] = [[1, 4], [2, 5]] := by decide
+
+/-! ### expansion = expansion of the hand-unrolled text (iteration fragment, `Rooc/Pre/Iter.lean`) -/
+section fragment
+variable {α : Type} [Arith α]
+
+/-- **`expand_eq_unroll`**: on the modelled fragment (scoped `sum / prod / avg / min / max / all / any /
+xor` over ranges, literal arrays, `enumerate`, `zip`, nested and destructuring iterations, compound
+variables with integer index expressions, block functions, all binary operators), expanding a model
+expression in an environment gives exactly the expression obtained by expanding its hand-unrolled
+form — every iteration value substituted as a literal in iteration order, every aggregate replaced by
+the explicit expression — in the EMPTY environment; and one fails iff the other does. -/
+theorem expand_eq_unroll (env : Env) (e : ME) :
+    (expand env e : Except IErr (Exp α)).toOption = (unroll env e >>= expand []).toOption :=
+  Rooc.Proofs.Iter.expand_unroll env e
+
+/-- the hand-unrolled form is free of iteration constructs -/
+theorem unroll_is_flat (env : Env) (e e' : ME) (h : unroll env e = .ok e') : e'.flat = true :=
+  Rooc.Proofs.Iter.unroll_flat env e e' h
+
+/-- non-vacuity: `sum(i in 0..3) { x_i }` unrolls to `x_0 + (x_1 + x_2)` and both expand to the same tree -/
+example :
+    let p : ME := .agg .sum [⟨["i"], .range (.lit 0) (.lit 3) false⟩] (.cvar "x" [.var "i"])
+    (unroll [] p).toOption.map ME.flat = some true ∧
+    ((expand [] p : Except IErr (Exp α)).toOption.map (fun _ => ())) = some () := by
+  refine ⟨?_, ?_⟩
+  · cases h : unroll [] (ME.agg .sum [⟨["i"], .range (.lit 0) (.lit 3) false⟩] (.cvar "x" [.var "i"])) with
+    | error e => simp [unroll, iterate, envs, It.shapeOk, declareAll, Env.get, Src.rows, CE.eval, rangeVals, intsFrom, mapE, bindRow, unrollIdx, explicit] at h
+    | ok e' => simp [unroll_is_flat [] _ e' h]
+  · simp [expand, iterate, envs, It.shapeOk, declareAll, Env.get, Src.rows, CE.eval, rangeVals, intsFrom, mapE, bindRow, idxFrag, aggregate]
+
+end fragment
+
+/-! ### names: `flatten_variable_name` -/
+
+private theorem split_at_underscore (x y s t : List Char) (hx : '_' ∉ x) (hy : '_' ∉ y)
+    (h : x ++ '_' :: s = y ++ '_' :: t) : x = y ∧ s = t := by
+  induction x generalizing y with
+  | nil =>
+    cases y with
+    | nil => simpa using h
+    | cons d y' => simp at h; simp [← h.1] at hy
+  | cons c x' ih =>
+    cases y with
+    | nil => simp at h; simp [h.1] at hx
+    | cons d y' =>
+      simp only [List.cons_append, List.cons.injEq] at h
+      simp only [List.mem_cons, not_or] at hx hy
+      obtain ⟨h1, h2⟩ := ih y' hx.2 hy.2 h.2
+      exact ⟨by rw [h.1, h1], h2⟩
+
+private theorem no_underscore_absurd (x y t : List Char) (hx : '_' ∉ x) (h : x = y ++ '_' :: t) : False := by
+  subst h; simp at hx
+
+/-- **name injectivity (partial)**: two non-empty index lists whose printed fragments contain no
+`_` flatten to the same name only if they are equal — `x_1_23` and `x_12_3` are different names. -/
+theorem flatten_injective_partial (a b : List (List Char)) (ha : underscoreFree a) (hb : underscoreFree b)
+    (hane : a ≠ []) (hbne : b ≠ []) (h : flattenChars a = flattenChars b) : a = b := by
+  induction a generalizing b with
+  | nil => exact absurd rfl hane
+  | cons x ra ih =>
+    cases b with
+    | nil => exact absurd rfl hbne
+    | cons y rb =>
+      have hx : '_' ∉ x := ha x (by simp)
+      have hy : '_' ∉ y := hb y (by simp)
+      cases ra with
+      | nil =>
+        cases rb with
+        | nil => simp [flattenChars] at h; rw [h]
+        | cons y2 rb' => simp only [flattenChars] at h; exact (no_underscore_absurd x y _ hx h).elim
+      | cons x2 ra' =>
+        cases rb with
+        | nil => simp only [flattenChars] at h; exact (no_underscore_absurd y x _ hy h.symm).elim
+        | cons y2 rb' =>
+          simp only [flattenChars] at h
+          obtain ⟨h1, h2⟩ := split_at_underscore x y _ _ hx hy h
+          have := ih (y2 :: rb') (fun f hf => ha f (by simp [hf])) (fun f hf => hb f (by simp at hf ⊢; exact Or.inr hf)) (by simp) (by simp) h2
+          rw [h1, this]
+
+/-- the same for the whole compound name `base_i_j…` when the base name has no `_` either -/
+theorem flattenCompound_injective_partial (n n' : List Char) (a b : List (List Char)) (hn : '_' ∉ n) (hn' : '_' ∉ n')
+    (ha : underscoreFree a) (hb : underscoreFree b) (hane : a ≠ []) (hbne : b ≠ [])
+    (h : flattenCompoundChars n a = flattenCompoundChars n' b) : n = n' ∧ a = b := by
+  obtain ⟨h1, h2⟩ := split_at_underscore n n' _ _ hn hn' h
+  exact ⟨h1, flatten_injective_partial a b ha hb hane hbne h2⟩
+
+example : underscoreFree ["1".toList, "23".toList] ∧ flattenChars ["1".toList, "23".toList] ≠ flattenChars ["12".toList, "3".toList] := by
+  refine ⟨?_, by decide⟩
+  intro f hf; simp at hf; rcases hf with rfl | rfl <;> decide
+
+/-- outside the hypothesis the names collide: a string index containing `_` … -/
+theorem flatten_injective_counterexample :
+    flattenChars ["a_b".toList] = flattenChars ["a".toList, "b".toList] ∧ ["a_b".toList] ≠ ["a".toList, "b".toList] := by decide
+/-- … an empty index list against one empty fragment … -/
+theorem flatten_injective_counterexample_empty : flattenChars [] = flattenChars [[]] ∧ ([] : List (List Char)) ≠ [[]] := by decide
+/-- … and different index VALUES with the same printed fragment (`x_{"1"}`, `x_1`, `x_{1.0}` are one variable) -/
+theorem fragment_collision_counterexample :
+    fragmentOf (fun _ => "1") (.string "1" : Prim Unit) = fragmentOf (fun _ => "1") (.integer 1 : Prim Unit) ∧
+    fragmentOf (fun _ => "1") (.number () : Prim Unit) = fragmentOf (fun _ => "1") (.integer 1 : Prim Unit) := by decide
+
 end Rooc.Props.C06
